@@ -32,8 +32,12 @@ def declare(sym: str, sign: str | None):
 class Poly:
     __slots__ = ("t",)
 
+    MAX_TERMS = 60000
+
     def __init__(self, terms=None):
         self.t = {m: c for m, c in (terms or {}).items() if c != 0}
+        if len(self.t) > Poly.MAX_TERMS:
+            raise SymAbort(f"expression size budget exceeded ({len(self.t)} terms): the symbolic evaluation of this tree explodes")
 
     @staticmethod
     def const(c):
@@ -74,6 +78,8 @@ class Poly:
     def __mul__(self, o):
         if len(self.t) > len(o.t):
             self, o = o, self
+        if len(self.t) * len(o.t) > 20_000_000:
+            raise SymAbort(f"expression size budget exceeded (product of {len(self.t)} x {len(o.t)} terms): the symbolic evaluation of this tree explodes")
         r = {}
         for m1, c1 in self.t.items():
             for m2, c2 in o.t.items():
